@@ -573,3 +573,23 @@ Theorem C03_titled_link_instance :
    wf_b t = true /\ text_of (spell t) = [ $"> see [the site](/s " ++ [34%Z] ++ $"Its title" ++ [34%Z] ++ $")." ++ [10%Z] ]).
 Proof. vm_compute. repeat split; reflexivity. Qed.
 Print Assumptions C03_titled_link_instance.
+
+(* an AUTOLINK inside a sentence (Proofs/AutoLinkSentence.v): pre <scheme:rest> post - the scheme a letter and 1 to 31 letters, digits or
+   hyphens, the rest free of white space, angle brackets and trigger characters - is the text, one AutoLink holding the address, the text.
+   AutoLink.pattern evaluated exactly (the bounded greedy scheme, the lazy rest); HtmlSpan.pattern - six alternatives, the first with nested
+   repetitions - PROVED TO FAIL at the "<" (hs_fails: after a tag-like name nothing of its first alternative can go on; the others need
+   "/", "!" or "?"), so the two finders that both begin at "<" do not collide; the core scanner finds nothing *)
+From Mistletoe Require Import Proofs.AutoLinkSentence.
+Theorem C03_autolink_in_sentence : forall types fn pre c0 sc r post,
+  auto_spans types = true -> auto_ok pre c0 sc r post = true ->
+  Inline.tokenize_inner types fn (pre ++ [60%Z] ++ (c0 :: sc ++ 58%Z :: r) ++ [62%Z] ++ post) =
+  EmphSentence.raw_if pre ++ [auto_of (c0 :: sc ++ 58%Z :: r)] ++ EmphSentence.raw_if post.
+Proof. exact autolink_in_sentence. Qed.
+Print Assumptions C03_autolink_in_sentence.
+
+Theorem C03_autolink_hypotheses :
+  (map (fun c => auto_spans (cfg_span c)) [cfg_html; cfg_html_nohtml; cfg_markdown; cfg_latex; cfg_mathjax; cfg_default] = [true; true; true; true; true; true]) /\
+  (auto_ok ($"see ") 104%Z ($"ttps") ($"//ex.am/a-b?c=d#e") ($", ok") = true) /\ (auto_ok [] 109%Z ($"ailto") ($"me@ex.am") [] = true) /\
+  (auto_ok [] 104%Z ($"ttp") ($"//a b") [] = false) /\ (auto_ok [] 104%Z [] ($"x") [] = false) /\ (auto_ok [] 49%Z ($"a") ($"x") [] = false).
+Proof. split; [exact auto_configs|exact auto_instance]. Qed.
+Print Assumptions C03_autolink_hypotheses.
